@@ -373,6 +373,17 @@ def _stmt_end(text: str, at: int, what: str) -> int:
     raise rsx.LostAnchor(f"{BENCH}: compute_stats: end of statement `{what}` not found")
 
 
+def sorted_standin(sm, f_sorted):
+    sec = code_fn(sm, f_sorted, "SampleCollection::sorted_samples", ret="r", assume=True, clauses="""
+            ensures r@.len() == self.time_samples@.len(),
+                sorted(rdurs(r@)),
+                rdurs(r@).to_multiset() == durs(self.time_samples@).to_multiset(),
+        """)
+    sec.text = sec.text[:sec.text.index("{")] + "{ unimplemented!() }"
+    sec.dropped.append("body left out (std sort_unstable_by_key / collect); the contract is ASSUMED, bounded Kani harness verif_c05::sorted_samples_n3 on the real function")
+    return sec
+
+
 def time_core_files(S: Sources):
     """The time columns of BenchContext::compute_stats as one Verus function built from two regions of its text."""
     import re
@@ -380,7 +391,7 @@ def time_core_files(S: Sources):
     secs = [ghost("imports", "use std::collections::HashMap;", kind="glue")]
     secs += alloc_type_sections(S)
     secs.append(code_item(fd, fd.find_item("struct", "FineDuration"), keep_attrs=("derive",),
-                          subst=[(r"#\[derive\([^\]]*\)\]", "#[derive(Clone, Copy, Default, PartialEq, Eq, PartialOrd, Ord)]", 1)]))
+                          subst=[(r"#\[derive\([^\]]*\)\]", "#[derive(Clone, Copy, Default, PartialEq, Eq)]", 1)]))
     secs.append(code_item(sm, sm.find_item("struct", "TimeSample")))
     secs.append(code_item(sm, sm.find_item("struct", "SampleCollection"), keep_attrs=(),))
     secs.append(code_item(st, st.find_item("struct", "StatsSet"), keep_attrs=()))
@@ -407,12 +418,9 @@ def time_core_files(S: Sources):
             requires sum_seq(durs(self.time_samples@)) <= u128::MAX,
             ensures r.picos == sum_seq(durs(self.time_samples@)),
         """),
-        # slice::sort_unstable_by_key and Iterator::collect are std: the body is not verified here
-        code_fn(sm, f_sorted, "SampleCollection::sorted_samples", ret="r", assume=True, clauses="""
-            ensures r@.len() == self.time_samples@.len(),
-                sorted(rdurs(r@)),
-                rdurs(r@).to_multiset() == durs(self.time_samples@).to_multiset(),
-        """),
+        # slice::sort_unstable_by_key and Iterator::collect are std: signature and ASSUMED contract only, the body is left out
+        # (it would need `Ord` on FineDuration, whose derived operators have no meaning in Verus)
+        sorted_standin(sm, f_sorted),
     ])
     # ---- region 1: from the first statement of compute_stats to the end of `let median_duration = ...;`
     f = b.find_fn("compute_stats", impl=r"impl<'a> BenchContext<'a>")
